@@ -25,7 +25,7 @@ def main():
     jobs = printcore.jobs(quick)
     for k in (1, 2, 3):
         jobs.append(('model then print k=%d' % k, printcore.unit_print_model, (k, {})))
-    for sh in [('bin', 'L', 'L'), ('q', 1, ('bin', 'L', 'L')), ('cc', ('L', 'L', 'L'))]:
+    for sh in [('bin', 'L', 'L'), ('q', 1, ('bin', 'L', 'L')), ('q', 2, ('bin', 'L', 'L')), ('q', 2, ('bin', 'L', ('bin', 'L', 'L'))), ('cc', ('L', 'L', 'L'))]:
         jobs.append(('constructor (header = free variables in variable order) %r k=3' % (sh,), c09.unit_constructor, (sh, 3, {})))
     jobs.append(('selftest:rows for the false branch marked True', printcore.unit_print_table, (2, dict(mutate=('print_truth_table_recursive', '_13 = rsbdd::TruthTableEntry::False', '_13 = rsbdd::TruthTableEntry::True')))))
     rep = run_property(PID, lemma, ['and', 'or', 'not'], [],
